@@ -213,6 +213,14 @@ class IntFlavour(Flavour):
         return d * 7
 
 
+class IntNodeIdFlavour(IntFlavour):
+    """int data; the nodes of a built state get custom node_ids that coincide with int DATA values which are not
+    in the tree (data 3.. of a two-value alphabet): `value in tree` must not be answered by a node_id"""
+
+    def node_id_for(self, i):
+        return 7 * (i + 2)
+
+
 class FalsyFlavour(Flavour):
     """ints including the falsy value 0 (d = 1)"""
 
@@ -293,6 +301,7 @@ def make(name, typed=False) -> Flavour:
         "str0": FalsyIdFlavour,
         "doc": DocFlavour,
         "falsy": FalsyFlavour,
+        "intnid": IntNodeIdFlavour,
         "tuple": TupleFlavour,
         "dataclass": DataclassFlavour,
         "dictwrapper": DictWrapperFlavour,
